@@ -252,7 +252,9 @@ def build_nasty_dlis(rng):
             if n_ >= 4:
                 xr = rng.choice([xr, xr, [0, 1, 1] + list(range(3, n_)), [0, 2] + list(range(3, n_)) + [2 * (n_ - 1)], [0, 1, 2] + [k_ + 7 for k_ in range(3, n_)]])
                 fnos = rng.choice([fnos, fnos, [1, 3] + list(range(4, n_ + 1)) + [2 * n_ - 1], [1, 2, 3] + [k_ + 9 for k_ in range(4, n_ + 1)]])
-            types.append(dict(name=b'FT%d' % t, c=0, channels=chs, n=n_, xr=xr, fnos=fnos, description=rng.choice(NASTY_ASCII)))
+            # (an index in milliseconds since 1970 is a number of the size 1.6e12: half a unit is far below a billionth of it, and is still a step)
+            xbase = 1.6e12 if chs[0]['rc'] == 7 and rng.random() < 0.5 else 0.0
+            types.append(dict(name=b'FT%d' % t, c=0, channels=chs, n=n_, xr=xr, xbase=xbase, fnos=fnos, description=rng.choice(NASTY_ASCII)))
         if ntypes == 2 and rng.random() < 0.4:
             # two COPIES of one frame object name (same origin and identifier, copy numbers 0 and 1): two frame types
             for t, ty in enumerate(types):
@@ -290,11 +292,11 @@ def build_nasty_dlis(rng):
             data = b''
             for c, ch in enumerate(types[t]['channels']):
                 for e in range(ch['dims'][0]):
-                    data += c04.enc(ch['rc'], c04.value_of(ch['rc'], types[t]['xr'][r] if c == 0 else r, c, e))
+                    data += c04.enc(ch['rc'], c04.value_of(ch['rc'], types[t]['xr'][r] if c == 0 else r, c, e) + (types[t]['xbase'] if c == 0 else 0))
             payloads.append(GLg.iflr(types[t]['name'], types[t]['fnos'][r], data, c=types[t]['c']))
             recs.append(dict(kind='I', type=0, enc=False))
         truth.append(dict(eflrs=len(eflrs), types=[dict(name=ty['name'].decode(), c=ty['c'], n=ty['n'], description=ty['description'], fnos=ty['fnos'],
-                                                     xs=[float(c04.value_of(ty['channels'][0]['rc'], r_, 0, 0)) for r_ in ty['xr']]) for ty in types],
+                                                     xs=[float(c04.value_of(ty['channels'][0]['rc'], r_, 0, 0)) + ty['xbase'] for r_ in ty['xr']]) for ty in types],
                           well=well, company=company, params=params))
     for rec, pl in zip(recs, payloads):
         rec['len'] = len(pl)
